@@ -10,6 +10,7 @@ import NormModel.Properties.C03
 import NormModel.Properties.C04
 import NormModel.Properties.C13
 import NormModel.Properties.C14
+import NormModel.Proofs.Spacing
 namespace Norm.C02
 open Norm
 
@@ -59,6 +60,79 @@ theorem ternary_sound (toks : List Token) (t : List Segment) (d : Diag)
     exact ⟨tk, segToks_sub toks g tk h1, by simpa using h2, rfl⟩
   · obtain ⟨tk, _, rfl⟩ := List.mem_map.mp hm
     rw [C03.tokDiag_name] at hn; exact absurd hn (by decide)
+
+/-- **V01 (trailing blank), end to end for every rule table**: in a file that reaches a verdict,
+a SPACE token at index `p` that is not at column 1, follows a token that is neither blank nor a
+brace, and is followed only by blanks up to a NEWLINE token, gets `SPC_BEFORE_NL` at its own
+position — provided the primary that matched its statement is not `IsEmptyLine` or
+`IsPreprocessorStatement` (after those `CheckSpacing` returns at once; for an empty line the
+violation is V03). `CheckSpacing` runs after every matched primary; the statements tile the
+token list (C07); inside the statement its loop reaches every start of a run of blanks. -/
+theorem trailing_space_e2e {σ : Type} (step : σ → Nat → StepRes σ) (s s' : σ) (toks : List Token)
+    (t : List Segment) (u : List Nat) (h : engineRun step 0 s toks.length = .ok s' t u)
+    (p m : Nat) (tk prev : Token) (htk : toks[p]? = some tk) (hS : tk.type = "SPACE") (hcol : tk.col ≠ 1)
+    (hp : 0 < p) (hprev : toks[p - 1]? = some prev)
+    (hprevty : prev.type ≠ "SPACE" ∧ prev.type ≠ "TAB" ∧ prev.type ≠ "LBRACE" ∧ prev.type ≠ "RBRACE")
+    (hlast : ∀ b, toks.getLast? = some b → b.type ≠ "LBRACE" ∧ b.type ≠ "RBRACE")
+    (hpm : p < m) (hblank : ∀ j, p ≤ j → j < m → isBlank toks j = true) (hnl : isTy toks m "NEWLINE" = true)
+    (hrule : ∀ g ∈ t, g.start ≤ p → p < g.start + g.len → g.rule ≠ "IsEmptyLine" ∧ g.rule ≠ "IsPreprocessorStatement") :
+    tokDiag "SPC_BEFORE_NL" tk ∈ spacingDiagsRun toks t := by
+  have hpl : p < toks.length := (List.getElem?_eq_some_iff.mp htk).1
+  obtain ⟨g, hg, hg1, hg2⟩ := index_in_some_segment step s s' toks.length t u h p hpl
+  unfold spacingDiagsRun
+  refine List.mem_flatMap.mpr ⟨g, hg, ?_⟩
+  have hk : g.start + (p - g.start) = p := by omega
+  apply trailing_space_reported g.rule (toks.drop g.start) g.len (p - g.start) (m - g.start) tk (hrule g hg hg1 hg2)
+  · omega
+  · rw [List.getElem?_drop, hk]; exact htk
+  · exact hS
+  · exact hcol
+  · -- run start
+    by_cases h0 : p - g.start = 0
+    · left; exact h0
+    · right
+      rw [isTy_drop, isTy_drop]
+      have : g.start + (p - g.start - 1) = p - 1 := by omega
+      rw [this]
+      unfold isTy; rw [hprev]
+      simp [hprevty.1, hprevty.2.1]
+  · -- no brace before (Python's index -1 is the last token of the file)
+    unfold braceBefore tokBefore
+    by_cases h0 : p - g.start = 0
+    · simp only [h0, ↓reduceIte]
+      have hne : toks.drop g.start ≠ [] := by
+        intro e
+        have := congrArg List.length e
+        simp only [List.length_drop, List.length_nil] at this; omega
+      cases hl : (toks.drop g.start).getLast? with
+      | none => rfl
+      | some b =>
+        have hb : toks.getLast? = some b := by
+          rw [List.getLast?_drop] at hl
+          split at hl
+          · cases hl
+          · exact hl
+        have := hlast b hb
+        simp [this.1, this.2]
+    · simp only [h0, ↓reduceIte]
+      rw [List.getElem?_drop]
+      have : g.start + (p - g.start - 1) = p - 1 := by omega
+      rw [this, hprev]
+      simp [hprevty.2.2.1, hprevty.2.2.2]
+  · omega
+  · intro j h1 h2
+    rw [isBlank_drop]
+    exact hblank _ (by omega) (by omega)
+  · rw [isTy_drop]
+    have : g.start + (m - g.start) = m := by omega
+    rw [this]; exact hnl
+
+/-- Non-vacuity: `a = b ;<space><newline>` matched as one statement. -/
+example :
+    let toks : List Token := [⟨"IDENTIFIER", 3, 1, some "a", 0, 1⟩, ⟨"SEMI_COLON", 3, 2, none, 1, 2⟩, ⟨"SPACE", 3, 3, none, 2, 3⟩,
+      ⟨"NEWLINE", 3, 4, none, 3, 4⟩]
+    (spacingDiagsRun toks [⟨"IsAssignation", 0, 4⟩]).map (fun d => (d.name, d.highlights.map (fun h => (h.line, h.col))))
+      = [("SPC_BEFORE_NL", [(3, 3)])] := by decide +kernel
 
 /- V82 end to end (a line wider than 80 columns ending in a newline token is reported, for every
 rule table) is `C03.long_line_reported`. -/
